@@ -240,7 +240,7 @@ Lemma cstep_erase ctes rds s i :
 Proof.
   destruct i; cbn [cstep erase_item step fst snd map]; try reflexivity.
   - rewrite lookup_erase. unfold erase_st. cbn [sorting fdo]. rewrite map_snd_redirect. reflexivity.
-  - unfold erase_st. cbn [fdo]. destruct (fdo skey s); reflexivity.
+  - unfold erase_st. cbn [fdo]. destruct (fdo skey s) eqn:E; cbn [sorting fdo map]; rewrite ?E; reflexivity.
   - unfold erase_st at 1. cbn [sorting]. rewrite is_nil_erase. destruct (part_empty && negb (skey_empty emb)); reflexivity.
 Qed.
 
@@ -249,9 +249,9 @@ Theorem crun_refines_run : forall p ctes rds s,
   = (erase_st (fst (crun ctes rds s p)), map erase_item (snd (crun ctes rds s p))).
 Proof.
   induction p as [|i r IH]; intros ctes rds s; [reflexivity|].
-  cbn [map run crun]. rewrite cstep_erase.
+  cbn [map run crun]. rewrite (cstep_erase ctes rds s i).
   destruct (cstep ctes rds s i) as [s1 o1]. cbn [fst snd].
-  rewrite IH. destruct (crun ctes rds s1 r) as [s2 o2]. cbn [fst snd]. rewrite map_app. reflexivity.
+  rewrite (IH ctes rds s1). destruct (crun ctes rds s1 r) as [s2 o2]. cbn [fst snd]. rewrite map_app. reflexivity.
 Qed.
 
 (* the inherited sorting is re-targeted column by column and keeps its directions; a column without a redirect in the reading
